@@ -157,6 +157,8 @@ type Interp struct {
 	nextID   int
 	actCount int
 	shared   map[*Stmt]*sharedActions
+
+	sawFalsified bool
 }
 
 type harnessAbort struct{ why string }
@@ -234,6 +236,9 @@ func (x *Interp) finish() {
 			x.sampleCtxs(sc, "final")
 		}
 		inv.finalize()
+		if inv.Falsified {
+			x.sawFalsified = true
+		}
 		var keyed int64
 		for _, sc := range inv.scopes {
 			if sc.kind == "prop" {
@@ -335,7 +340,9 @@ func (x *Interp) execStmt(fr *frame, st *Stmt) {
 	case "ifinv":
 		// true only in the N-th invocation of this interpreter: the one deliberately non-deterministic statement
 		// (C02: a test case that falsifies the property on its first execution only)
-		if x.cur.Idx == st.N {
+		// Kind "gen": ... and only while no earlier invocation has been falsified, i.e. during the random search: a
+		// property whose precondition (an external resource, say) fails once, before anything is drawn (C11)
+		if x.cur.Idx == st.N && (st.Kind != "gen" || !x.sawFalsified) {
 			x.exec(fr, st.Body)
 		}
 	case "sig":
